@@ -88,6 +88,12 @@ def fixed_cases():
             while len(blk) + 2 < total:
                 blk += b"Y: " + b"u" * max(0, min(fs - 3, total - len(blk) - 2 - 5)) + b"\r\n"
             out.append((sp, head + b"5\r\nhello\r\n0\r\n" + blk + b"\r\n" + tail, [[("read", None)], []], True))
+        # an EMPTY trailer section followed by a request whose head ends beyond that bound (in one read, the end of the body
+        # and the whole next head are in the buffer together): the next request's bytes are not the trailer block's
+        for extra in (bound - 20, bound + 40, 4 * bound):
+            nxt = b"GET /" + b"a" * extra + b" HTTP/1.1\r\nHost: x\r\n\r\n"
+            out.append((sp, head + b"5\r\nhello\r\n0\r\n\r\n" + nxt + tail, [[("read", None)], [], []], True))
+            out.append((sp, head + b"5\r\nhello\r\n0\r\n\r\n" + nxt, [[], []], True))
     return out
 
 
